@@ -112,9 +112,9 @@ def localStep (k : Kind) (serial : Nat) (q : Proc) : Act → Proc × Out
     match q.held with
     | none => (q, {})
     | some c =>
-      if q.pool.con = some c then
-        if k = .sqliteMemory then ({ q with held := none }, { stmts := [c] })      -- SQLitePool.drop: con.rollback() only
-        else ({ q with held := none, pool := { q.pool with con := none } }, { closed := [c] })
+      if k = .sqliteMemory then ({ q with held := none }, { stmts := [c] })        -- SQLitePool.drop: con.rollback() only, no assert
+      else if q.pool.con = some c then
+        ({ q with held := none, pool := { q.pool with con := none } }, { closed := [c] })
       else ({ q with held := none }, { assertError := true })
   | .disconnect =>
     if k = .sqliteMemory then (q, { staleDisconnect := !q.fresh })
